@@ -19,7 +19,7 @@ def run_view(gaf_lines, gfa_text, fmt, tmp, bgzf=False, gz_graph=False):
     out = os.path.join(tmp, "c.out")
     try:
         with watchdog(60):
-            tool("view", gaf_path=gaf, gfa=gfa, output=out, format=fmt)
+            tool("view", allow_stdout=True, gaf_path=gaf, gfa=gfa, output=out, format=fmt)
         return open(out).read().splitlines(), None
     except BaseException as e:  # noqa
         return None, type(e).__name__ + ": " + str(e)[:200]
@@ -48,7 +48,9 @@ def synth_stable(rng, g, k):
     ps = rng.randrange(0, plen)
     pe = rng.randrange(ps + 1, plen + 1)
     n = pe - ps
-    return gen.gaf_record("syn%d" % k, n + 5, 2, 2 + n, "+", path, plen, ps, pe, n, n, 60,
+    # one in five on the '-' strand: outside the property's quantifier ('+'-strand alignments), but a branch of to_unstable that
+    # the model mirrors (split contig, '-' strand) - compared with the model only, never judged by the specification
+    return gen.gaf_record("syn%d" % k, n + 5, 2, 2 + n, "+" if rng.random() < 0.8 else "-", path, plen, ps, pe, n, n, 60,
                           gen.rand_tags(rng, cigar=gen.simple_cigar(rng, n) if rng.random() < 0.8 else None))
 
 
@@ -123,6 +125,12 @@ def judge(ck, prop, direction, gtext, lin, lout, r):
         ck.count("%s:steps%d" % (direction, min(nsteps, 4)))
         if not rr["valid"]:
             ck.count("invalid-record")
+            f = li.split("\t")
+            if direction == "unstable" and f[4] == "-" and ":" in f[5] and rr.get("model") is not None:
+                ck.count("minus-strand-interval-list:model-only")
+                if lo != rr["model"]:
+                    ck.disagreement("view --format unstable of a '-'-strand interval list differs from the model (outside the property's quantifier)",
+                                    {"gfa": gtext, "direction": direction, "line_in": li, "line_out": lo, "model": rr["model"]})
             continue
         replay = {"gfa": gtext, "direction": direction, "line_in": li, "line_out": lo, "model": rr["model"], "locus_in": rr["locus"]}
         if not rr["spec_on_impl"]:
